@@ -25,14 +25,14 @@ impl<T: CoordNum> Rect<T> {
 //@ret r
 //@spec
     ensures r.val() == rmax(self).x.val() - rmin(self).x.val(),
-//@before 1 `self.max().x - self.min().x`
+//@entry
         proof { T::ax_obeys(); T::ax_ring(); }
 //@end
 //@fn geo-types/src/geometry/rect.rs | impl<T: CoordNum> Rect<T> | height | id=C05.V.rect_height
 //@ret r
 //@spec
     ensures r.val() == rmax(self).y.val() - rmin(self).y.val(),
-//@before 1 `self.max().y - self.min().y`
+//@entry
         proof { T::ax_obeys(); T::ax_ring(); }
 //@end
 }
@@ -43,7 +43,7 @@ impl<T: CoordNum> Line<T> {
 //@spec
     // the shoelace term x1*y2 - y1*x2 of the segment
     ensures r.val() == self.start.x.val() * self.end.y.val() - self.start.y.val() * self.end.x.val(),
-//@before 1 `self.start.x * self.end.y`
+//@entry
         proof { T::ax_obeys(); T::ax_ring(); }
 //@end
 }
@@ -64,14 +64,14 @@ where
 //@ret r
 //@spec
         ensures r.val() == (rmax(*self).x.val() - rmin(*self).x.val()) * (rmax(*self).y.val() - rmin(*self).y.val()),
-//@before 1 `self.width() * self.height()`
+//@entry
         proof { T::ax_obeys(); T::ax_ring(); }
 //@end
 //@fn geo/src/algorithm/area.rs | impl<T> Area<T> for Rect<T> where T: CoordNum, | unsigned_area | id=C05.V.rect_unsigned_area
 //@ret r
 //@spec
         ensures r.val() == (rmax(*self).x.val() - rmin(*self).x.val()) * (rmax(*self).y.val() - rmin(*self).y.val()),
-//@before 1 `self.width() * self.height()`
+//@entry
         proof { T::ax_obeys(); T::ax_ring(); }
 //@end
 }
